@@ -22,13 +22,17 @@ def load_contracts():
 
     for m in pkgutil.iter_modules(contracts.__path__):
         importlib.import_module("contracts." + m.name)
+    import lemmas
+
+    for m in pkgutil.iter_modules(lemmas.__path__):
+        importlib.import_module("lemmas." + m.name)
     resolve_inheritance()
     return REGISTRY
 
 
 def _engine_hash():
     h = hashlib.sha256()
-    for d in ("pyvc", "spec", "contracts"):
+    for d in ("pyvc", "spec", "contracts", "lemmas"):
         for p in sorted((ROOT / d).glob("*.py")):
             h.update(p.name.encode())
             h.update(p.read_bytes())
